@@ -160,6 +160,10 @@ func genC09(r *core.Rand, p *core.Plan) {
 					p.Ops = append(p.Ops, core.Op{K: "fundpsbt", T: t, A: []int64{int64(r.Intn(8)), int64(r.Range(1, 10)) * 1e5}})
 				case r.Chance(1, 8):
 					p.Ops = append(p.Ops, core.Op{K: "newaddr", T: t, A: []int64{sc, 0, 2}})
+				case r.Chance(1, 7):
+					// another caller's account operation on the same account,
+					// free to land in the commit window of an issuing call
+					p.Ops = append(p.Ops, core.Op{K: "rename", T: t, A: []int64{sc}})
 				default:
 					p.Ops = append(p.Ops, core.Op{K: "newaddr", T: t, A: []int64{sc, 0, kind}})
 				}
@@ -300,6 +304,7 @@ type runState struct {
 	issues  []issueRec
 	errs    map[string]int
 	section int
+	renames int
 }
 
 func (sim) Execute(env *core.Env, p *core.Plan) {
@@ -817,6 +822,18 @@ func (rs *runState) exec(task, step int, op core.Op) {
 	case "importdry":
 		if x.running {
 			rs.importdry(step, op)
+		}
+	case "rename":
+		if x.running {
+			scope := scopes[int(uint64(op.Arg(0))%uint64(len(scopes)))]
+			rs.renames++
+			err := x.w.RenameAccount(scope, 0, fmt.Sprintf("name-%d", rs.renames))
+			env.Count("op.RenameAccount")
+			env.Eff()
+			env.Logf("%d t%d RenameAccount scope=%d err=%v", step, task, scope.Purpose, err)
+			if err != nil {
+				x.fail("rename-failed", "RenameAccount(scope %v, account 0) failed without any injected fault: %v", scope, err)
+			}
 		}
 	case "newacct":
 		if x.running && !x.haveAcct1 {
